@@ -456,6 +456,11 @@ def correspond(model_ok, res):
         T.SearchField("date", T.Range(W("2012-01-01"), W("2012-12-31"))), T.Range(W("*"), W("now-1d"), False, False),
         T.SearchField("path", T.Range(W("a/b"), W("a/c"))), T.AndOperation(W("x"), T.Group(T.Range(W("-5"), W("+5")))),
         T.Not(T.SearchField("d", T.Boost(T.Range(W("now-1d/d"), P('"2012-01-01 00:00"')), 2))),
+        # bounds spelled like special values of a numeric library, reversed and equal bounds, mixed kinds
+        T.Range(W("1"), W("nan")), T.SearchField("price", T.Range(W("1"), W("NaN"))), T.Range(W("inf"), W("-inf")),
+        T.Range(W("sNaN"), W("Infinity")), T.Range(W("1e999"), W("0x10")), T.Range(W("5"), W("1")), T.Range(W("1"), W("1")),
+        T.Range(W("b"), W("a")), T.Range(W("*"), W("*")), T.Range(P('"b"'), W("1")), T.Range(W("1.5"), W("1,5")),
+        T.AndOperation(T.SearchField("price", T.Range(W("1"), W("nan"))), W("x")),
         T.To(T.SearchField("x y", T.Group(W("a b")))),
         T.OrOperation(T.Group(T.AndOperation(T.SearchField("title", P('"foo bar"')),
                                              T.SearchField("body", P('"quick fox"')))),
